@@ -236,7 +236,7 @@ Lemma union_spec cf g pe parts all ts :
   eval_query_cfg cf g pe (Q parts all) =
   Ok (if all then concat ts
       else match parts with [_] => concat ts | _ => dedup_by row_vals_eqb (concat ts) end).
-Proof. unfold eval_query_cfg. cbn. intros ->. reflexivity. Qed.
+Proof. unfold eval_query_cfg. cbn [q_parts q_all]. intros ->. reflexivity. Qed.
 
 (* ------------------------------------------------------------------ *)
 (* OPTIONAL MATCH is a left outer join with null padding *)
@@ -248,7 +248,7 @@ Lemma optional_match_spec cf g pe pats w r vps kept :
   Ok (match kept with [] => [null_pad (flat_map ppat_vars pats) r] | _ => kept end)
   /\ eval_match cf g pe false pats w r = Ok kept.
 Proof.
-  intros H1 H2. unfold eval_match. rewrite H1. cbn. rewrite H2. cbn.
+  intros H1 H2. unfold eval_match. rewrite H1. cbn [obind]. rewrite H2. cbn [obind].
   destruct kept; split; reflexivity.
 Qed.
 
@@ -301,9 +301,16 @@ Lemma node_ok_props np n :
   node_ok np n = true ->
   forall k v, In (k, v) (np_props np) -> eq3 (prop_of k (n_props n)) v = Some true.
 Proof.
-  unfold node_ok. rewrite andb_true_iff, forallb_forall. intros [_ H] k v Hkv.
-  specialize (H _ Hkv). unfold prop_match in H. cbn in H.
+  unfold node_ok. intros H k v Hkv. apply andb_true_iff in H. destruct H as [_ H].
+  rewrite forallb_forall in H. specialize (H _ Hkv). unfold prop_match in H. cbn in H.
   destruct (eq3 (prop_of k (n_props n)) v) as [[|]|]; congruence.
+Qed.
+
+Lemma filter_andb {A} (f h : A -> bool) (l : list A) :
+  filter (fun x => f x && h x) l = filter h (filter f l).
+Proof.
+  induction l as [|x l IH]; [reflexivity|]. cbn [filter].
+  destruct (f x); cbn [andb filter]; [destruct (h x)|]; rewrite IH; reflexivity.
 Qed.
 
 (* RW_label_scan_intersection: scanning for all labels = intersecting the per-label scans *)
@@ -312,8 +319,8 @@ Lemma label_scan_intersection (nodes : list node) (l : N) (ls : list N) :
   filter (fun n => forallb (fun l => memN l (n_labels n)) ls)
          (filter (fun n => memN l (n_labels n)) nodes).
 Proof.
-  induction nodes as [|n nodes IH]; cbn; [reflexivity|].
-  destruct (memN l (n_labels n)); cbn; [destruct (forallb _ ls); cbn; f_equal|]; exact IH.
+  exact (filter_andb (fun n => memN l (n_labels n))
+                     (fun n => forallb (fun l => memN l (n_labels n)) ls) nodes).
 Qed.
 
 (* ------------------------------------------------------------------ *)
@@ -359,4 +366,301 @@ Proof.
     cbn [filter]. destruct (f x) eqn:E.
     + destruct (IH k) as [n Hn]. exists (S n). cbn [firstn filter]. rewrite E, Hn. reflexivity.
     + destruct (IH (S k)) as [n Hn]. exists (S n). cbn [firstn filter]. rewrite E. exact Hn.
+Qed.
+
+(* ------------------------------------------------------------------ *)
+(* the matcher against a declarative definition of matching *)
+
+(* relationship r leads from u to v along direction d *)
+Definition Step (d : dir) (r : rel) (u v : N) : Prop :=
+  match d with
+  | DOut => r_src r = u /\ r_tgt r = v
+  | DIn => r_tgt r = u /\ r_src r = v
+  | DBoth => (r_src r = u /\ r_tgt r = v) \/ (r_tgt r = u /\ r_src r = v)
+  end.
+
+Lemma hop_spec rp u r x v :
+  In (x, v) (hop rp u r) <-> x = r /\ rel_ok rp r = true /\ Step (rp_dir rp) r u v.
+Proof.
+  unfold hop, Step. destruct (rel_ok rp r); [|cbn; intuition congruence].
+  destruct (rp_dir rp).
+  - destruct (N.eqb_spec (r_src r) u) as [E|E]; cbn.
+    + split; [intros [H|[]]; inversion H; subst; auto | intros [-> [_ [_ <-]]]; auto].
+    + split; [intros [] | intros [_ [_ [H _]]]; congruence].
+  - destruct (N.eqb_spec (r_tgt r) u) as [E|E]; cbn.
+    + split; [intros [H|[]]; inversion H; subst; auto | intros [-> [_ [_ <-]]]; auto].
+    + split; [intros [] | intros [_ [_ [H _]]]; congruence].
+  - destruct (N.eqb_spec (r_src r) u) as [E|E]; cbn.
+    + split; [intros [H|[]]; inversion H; subst; auto|].
+      intros [-> [_ [[_ <-]|[E2 <-]]]]; [auto | left; congruence].
+    + destruct (N.eqb_spec (r_tgt r) u) as [E'|E']; cbn.
+      * split; [intros [H|[]]; inversion H; subst; auto|].
+        intros [-> [_ [[H _]|[_ <-]]]]; [congruence | auto].
+      * split; [intros [] | intros [_ [_ [[H _]|[H _]]]]; congruence].
+Qed.
+
+Lemma hops_spec g rp u r v :
+  In (r, v) (hops g rp u) <-> In r (g_rels g) /\ rel_ok rp r = true /\ Step (rp_dir rp) r u v.
+Proof.
+  unfold hops. rewrite in_flat_map. split.
+  - intros [x [Hx H]]. apply hop_spec in H. destruct H as [-> H]. auto.
+  - intros [H1 H2]. exists r. split; [exact H1 | apply hop_spec; auto].
+Qed.
+
+Inductive Walk (g : graph) (rp : rpat value) : N -> list rel -> N -> Prop :=
+| Walk_nil u : Walk g rp u [] u
+| Walk_cons u r v rs w :
+    In r (g_rels g) -> rel_ok rp r = true -> Step (rp_dir rp) r u v ->
+    Walk g rp v rs w -> Walk g rp u (r :: rs) w.
+
+(* a trail: a walk that repeats no relationship and avoids the relationships already used *)
+Definition Trail (g : graph) (rp : rpat value) (u : N) (used : list N) (rs : list rel) (w : N) : Prop :=
+  Walk g rp u rs w /\ NoDup (map r_id rs) /\ (forall r, In r rs -> ~ In (r_id r) used).
+
+Lemma memN_false x l : memN x l = false <-> ~ In x l.
+Proof. rewrite <- memN_In. destruct (memN x l); split; congruence. Qed.
+
+Lemma trails_spec fuel g rp : forall u used rs w,
+  In (rs, w) (trails fuel g rp u used) <-> Trail g rp u used rs w /\ (length rs <= fuel)%nat.
+Proof.
+  induction fuel as [|f IH]; intros u used rs w.
+  - cbn. split.
+    + intros [H|[]]. inversion H; subst. split; [|cbn; lia].
+      split; [constructor | split; [constructor | intros r []]].
+    + intros [[Hw _] Hl]. destruct rs; [|cbn in Hl; lia]. inversion Hw; subst. auto.
+  - cbn [trails]. split.
+    + intros [H|H].
+      * inversion H; subst. split; [|cbn; lia].
+        split; [constructor | split; [constructor | intros r []]].
+      * apply in_flat_map in H. destruct H as [[r v] [Hh H]]. cbn [fst snd] in H.
+        destruct (memN (r_id r) used) eqn:M; [destruct H|].
+        apply in_map_iff in H. destruct H as [[rs' w'] [E H]]. cbn [fst snd] in E.
+        inversion E; subst; clear E.
+        apply IH in H. destruct H as [[Hw [Hn Hu]] Hl].
+        apply hops_spec in Hh. destruct Hh as [H1 [H2 H3]].
+        apply memN_false in M.
+        split; [|cbn; lia]. split; [econstructor; eauto|]. split.
+        -- cbn. constructor; [|exact Hn]. intros Hin. apply in_map_iff in Hin.
+           destruct Hin as [r' [E Hr']]. apply (Hu r' Hr'). left. auto.
+        -- intros r' [<-|Hr']; [exact M|]. intros Hin. apply (Hu r' Hr'). right. exact Hin.
+    + intros [[Hw [Hn Hu]] Hl]. destruct rs as [|r rs'].
+      * inversion Hw; subst. left. reflexivity.
+      * right. inversion Hw as [|? ? v ? ? H1 H2 H3 H4]; subst.
+        apply in_flat_map. exists (r, v). split; [apply hops_spec; auto|]. cbn [fst snd].
+        assert (M : memN (r_id r) used = false) by (apply memN_false, Hu; left; reflexivity).
+        rewrite M. apply in_map_iff. exists (rs', w). split; [reflexivity|].
+        apply IH. cbn in Hl, Hn. inversion Hn as [|? ? Hn1 Hn2]; subst.
+        split; [|lia]. split; [exact H4|]. split; [exact Hn2|].
+        intros r' Hr' [E|Hin].
+        -- apply Hn1. rewrite E. apply in_map, Hr'.
+        -- apply (Hu r'); [right; exact Hr' | exact Hin].
+Qed.
+
+Lemma walk_incl g rp u rs w : Walk g rp u rs w -> incl rs (g_rels g).
+Proof. induction 1; intros x; cbn; [intros [] | intros [<-|H']; auto]. Qed.
+
+(* a trail is never longer than the number of relationships of the graph *)
+Lemma trail_length g rp u used rs w :
+  Trail g rp u used rs w -> (length rs <= length (g_rels g))%nat.
+Proof.
+  intros [Hw [Hn _]]. rewrite <- (map_length r_id rs), <- (map_length r_id (g_rels g)).
+  apply NoDup_incl_length; [exact Hn|]. apply incl_map. eapply walk_incl, Hw.
+Qed.
+
+(* the fuel |rels| is enough: more fuel finds no further trail *)
+Lemma fuel_suffices g rp u used fuel x :
+  (length (g_rels g) <= fuel)%nat ->
+  In x (trails fuel g rp u used) <-> In x (trails (length (g_rels g)) g rp u used).
+Proof.
+  intros Hf. destruct x as [rs w]. rewrite !trails_spec. split; intros [Ht Hl]; split; auto.
+  - eapply trail_length, Ht.
+  - apply trail_length in Ht. lia.
+Qed.
+
+(* one pattern segment: the relationships bound form a trail of admissible length *)
+Definition SegOk (g : graph) (rp : rpat value) (u : N) (used : list N) (rs : list rel) (w : N) : Prop :=
+  Trail g rp u used rs w /\
+  match rp_len rp with
+  | None => length rs = 1%nat
+  | Some (lo, hi) => (lo <= length rs)%nat /\ match hi with Some h => (length rs <= h)%nat | None => True end
+  end.
+
+Lemma seg_cands_spec g rp u used rs w :
+  In (rs, w) (seg_cands g rp u used) <-> SegOk g rp u used rs w.
+Proof.
+  unfold seg_cands, SegOk. destruct (rp_len rp) as [[lo hi]|].
+  - rewrite filter_In, trails_spec. cbn [fst]. unfold len_ok.
+    rewrite andb_true_iff, Nat.leb_le. split.
+    + intros [[Ht _] [H1 H2]]. split; [exact Ht|]. split; [exact H1|].
+      destruct hi; [apply Nat.leb_le, H2 | exact I].
+    + intros [Ht [H1 H2]]. split; [split; [exact Ht|] | split; [exact H1|]].
+      * unfold varlen_fuel. destruct hi; [exact H2 | eapply trail_length, Ht].
+      * destruct hi; [apply Nat.leb_le, H2 | reflexivity].
+  - rewrite in_map_iff. split.
+    + intros [[r v] [E H]]. cbn [fst snd] in E. inversion E; subst; clear E.
+      apply filter_In in H. destruct H as [Hh M]. cbn [fst] in M.
+      apply negb_true_iff, memN_false in M. apply hops_spec in Hh. destruct Hh as [H1 [H2 H3]].
+      split; [|reflexivity]. split; [econstructor; eauto; constructor|].
+      split; [cbn; constructor; [intros []|constructor]|].
+      intros r' [<-|[]]. exact M.
+    + intros [[Hw [_ Hu]] Hl]. destruct rs as [|r [|? ?]]; cbn in Hl; try lia.
+      inversion Hw as [|? ? v ? ? H1 H2 H3 H4]; subst. inversion H4; subst.
+      exists (r, w). split; [reflexivity|]. apply filter_In. split; [apply hops_spec; auto|].
+      cbn [fst]. apply negb_true_iff, memN_false, Hu. left. reflexivity.
+Qed.
+
+(* the declarative matching relation for the segments of a path *)
+Inductive SegsMatch (g : graph) :
+  list (rpat value * npat value) -> N -> row -> list N -> list seg_asg -> row -> list N -> Prop :=
+| SM_nil u r used : SegsMatch g [] u r used [] r used
+| SM_cons rp np rest u r used rs v n r1 r2 a r' used' :
+    SegOk g rp u used rs v ->
+    find_node g v = Some n -> node_ok np n = true ->
+    bind_var (rp_var rp) (rel_value rp rs) r = Some r1 ->
+    bind_var (np_var np) (VNode v) r1 = Some r2 ->
+    SegsMatch g rest v r2 (map r_id rs ++ used) a r' used' ->
+    SegsMatch g ((rp, np) :: rest) u r used ((map r_id rs, v) :: a) r' used'.
+
+Lemma enum_segs_spec g segs : forall u r used a r' used',
+  In (a, r', used') (enum_segs g segs u r used) <-> SegsMatch g segs u r used a r' used'.
+Proof.
+  induction segs as [|[rp np] rest IH]; intros u r used a r' used'.
+  - cbn. split.
+    + intros [H|[]]. inversion H; subst. constructor.
+    + intros H. inversion H; subst. left. reflexivity.
+  - cbn [enum_segs]. rewrite in_flat_map. split.
+    + intros [[rs v] [Hc H]]. cbn [fst snd] in H.
+      destruct (find_node g v) as [n|] eqn:Fn; [|destruct H].
+      destruct (node_ok np n) eqn:On; [|destruct H].
+      destruct (bind_var (rp_var rp) (rel_value rp rs) r) as [r1|] eqn:B1; [|destruct H].
+      destruct (bind_var (np_var np) (VNode v) r1) as [r2|] eqn:B2; [|destruct H].
+      apply in_map_iff in H. destruct H as [[[a0 r0] u0] [E H]]. cbn [fst snd] in E.
+      inversion E; subst; clear E.
+      apply IH in H. apply seg_cands_spec in Hc. econstructor; eauto.
+    + intros H. inversion H as [|? ? ? ? ? ? rs v n r1 r2 a0 ? ? Hs Fn On B1 B2 Hm]; subst.
+      exists (rs, v). split; [apply seg_cands_spec, Hs|]. cbn [fst snd].
+      rewrite Fn, On, B1, B2. apply in_map_iff. exists (a0, r', used'). split; [reflexivity|].
+      apply IH, Hm.
+Qed.
+
+Definition PathMatch (g : graph) (p : ppat value) (r : row) (used : list N)
+           (pa : path_asg) (r' : row) (used' : list N) : Prop :=
+  exists n r1,
+    In n (g_nodes g) /\ node_ok (fst p) n = true /\
+    bind_var (np_var (fst p)) (VNode (n_id n)) r = Some r1 /\
+    fst pa = n_id n /\ SegsMatch g (snd p) (n_id n) r1 used (snd pa) r' used'.
+
+Lemma enum_path_spec g p r used pa r' used' :
+  In (pa, r', used') (enum_path g p r used) <-> PathMatch g p r used pa r' used'.
+Proof.
+  unfold enum_path, PathMatch. rewrite in_flat_map. split.
+  - intros [n [Hn H]]. destruct (node_ok (fst p) n) eqn:On; [|destruct H].
+    destruct (bind_var (np_var (fst p)) (VNode (n_id n)) r) as [r1|] eqn:B; [|destruct H].
+    apply in_map_iff in H. destruct H as [[[a0 r0] u0] [E H]]. cbn [fst snd] in E.
+    inversion E; subst; clear E. apply enum_segs_spec in H.
+    exists n, r1. cbn [fst snd]. auto.
+  - intros [n [r1 [Hn [On [B [E H]]]]]]. exists n. split; [exact Hn|]. rewrite On, B.
+    apply in_map_iff. exists (snd pa, r', used'). cbn [fst snd]. split.
+    + destruct pa as [i a]. cbn in E |- *. subst. reflexivity.
+    + apply enum_segs_spec, H.
+Qed.
+
+Inductive PatsMatch (iso : bool) (g : graph) :
+  list (ppat value) -> row -> list N -> list path_asg -> row -> list N -> Prop :=
+| PM_nil r used : PatsMatch iso g [] r used [] r used
+| PM_cons p rest r used pa r1 u1 a r' used' :
+    PathMatch g p r used pa r1 u1 ->
+    PatsMatch iso g rest r1 (if iso then u1 else used) a r' used' ->
+    PatsMatch iso g (p :: rest) r used (pa :: a) r' used'.
+
+Lemma enum_pats_spec iso g ps : forall r used a r' used',
+  In (a, r', used') (enum_pats iso g ps r used) <-> PatsMatch iso g ps r used a r' used'.
+Proof.
+  induction ps as [|p rest IH]; intros r used a r' used'.
+  - cbn. split.
+    + intros [H|[]]. inversion H; subst. constructor.
+    + intros H. inversion H; subst. left. reflexivity.
+  - cbn [enum_pats]. rewrite in_flat_map. split.
+    + intros [[[pa r1] u1] [Hp H]]. cbn [fst snd] in H.
+      apply in_map_iff in H. destruct H as [[[a0 r0] u0] [E H]]. cbn [fst snd] in E.
+      inversion E; subst; clear E. apply IH in H. apply enum_path_spec in Hp.
+      econstructor; eauto.
+    + intros H. inversion H as [|? ? ? ? pa r1 u1 a0 ? ? Hp Hm]; subst.
+      exists (pa, r1, u1). split; [apply enum_path_spec, Hp|]. cbn [fst snd].
+      apply in_map_iff. exists (a0, r', used'). split; [reflexivity | apply IH, Hm].
+Qed.
+
+(* ---- relationship isomorphism: the relationships of one MATCH are pairwise distinct ---- *)
+Definition segs_rels (a : list seg_asg) : list N := flat_map fst a.
+Definition pats_rels (a : list path_asg) : list N := flat_map (fun pa => segs_rels (snd pa)) a.
+
+Lemma segok_nodup g rp u used rs w :
+  SegOk g rp u used rs w -> NoDup used -> NoDup (map r_id rs ++ used).
+Proof.
+  intros [[_ [Hn Hu]] _] Hd. induction rs as [|r rs IH]; cbn; [exact Hd|].
+  cbn in Hn. inversion Hn; subst. constructor.
+  - rewrite in_app_iff. intros [H|H]; [auto|]. apply (Hu r); [left; reflexivity | exact H].
+  - apply IH; [assumption|]. intros r' Hr'. apply Hu. right. exact Hr'.
+Qed.
+
+Lemma segs_match_used g segs u r used a r' used' :
+  SegsMatch g segs u r used a r' used' ->
+  NoDup used -> NoDup used' /\ Permutation used' (segs_rels a ++ used).
+Proof.
+  induction 1 as [|rp np rest u r used rs v n r1 r2 a r' used' Hs Fn On B1 B2 Hm IH]; intros Hd.
+  - split; [exact Hd | apply Permutation_refl].
+  - destruct (IH (segok_nodup _ _ _ _ _ _ Hs Hd)) as [I1 I2]. split; [exact I1|].
+    eapply perm_trans; [exact I2|]. unfold segs_rels. cbn [flat_map fst].
+    rewrite <- !app_assoc. rewrite !app_assoc. apply Permutation_app_tail, Permutation_app_comm.
+Qed.
+
+Lemma pats_match_used g ps : forall r used a r' used',
+  PatsMatch true g ps r used a r' used' ->
+  NoDup used -> NoDup used' /\ Permutation used' (pats_rels a ++ used).
+Proof.
+  induction ps as [|p rest IH]; intros r used a r' used' H Hd; inversion H; subst.
+  - split; [exact Hd | apply Permutation_refl].
+  - match goal with
+    | [ Hp : PathMatch _ _ _ _ _ _ _, Hm : PatsMatch _ _ _ _ _ _ _ _ |- _ ] =>
+        destruct Hp as [n [r0 [_ [_ [_ [_ Hs]]]]]];
+        destruct (segs_match_used _ _ _ _ _ _ _ _ Hs Hd) as [S1 S2];
+        destruct (IH _ _ _ _ _ Hm S1) as [I1 I2]
+    end.
+    split; [exact I1|]. eapply perm_trans; [exact I2|].
+    unfold pats_rels. cbn [flat_map]. fold (pats_rels a0).
+    eapply perm_trans; [apply Permutation_app_head, S2|].
+    rewrite !app_assoc. apply Permutation_app_tail, Permutation_app_comm.
+Qed.
+
+(* several labels: every node of a match carries all the labels its pattern lists *)
+Lemma segs_match_labels g segs u r used a r' used' :
+  SegsMatch g segs u r used a r' used' ->
+  Forall2 (fun (seg : rpat value * npat value) (sa : seg_asg) =>
+             exists n, find_node g (snd sa) = Some n /\
+                       forall l, In l (np_labels (snd seg)) -> In l (n_labels n)) segs a.
+Proof.
+  induction 1; constructor; [|assumption].
+  eexists. cbn [snd]. split; [eassumption|]. eapply node_ok_labels. eassumption.
+Qed.
+
+Lemma path_match_labels g p r used pa r' used' :
+  PathMatch g p r used pa r' used' ->
+  (exists n, In n (g_nodes g) /\ n_id n = fst pa /\
+             forall l, In l (np_labels (fst p)) -> In l (n_labels n))
+  /\ Forall2 (fun (seg : rpat value * npat value) (sa : seg_asg) =>
+                exists n, find_node g (snd sa) = Some n /\
+                          forall l, In l (np_labels (snd seg)) -> In l (n_labels n)) (snd p) (snd pa).
+Proof.
+  intros [n [r1 [Hn [On [_ [E Hs]]]]]]. split.
+  - exists n. split; [exact Hn|]. split; [auto|]. apply node_ok_labels, On.
+  - eapply segs_match_labels, Hs.
+Qed.
+
+(* the relationships matched by one MATCH clause are pairwise distinct *)
+Lemma match_rel_iso g ps r a r' used' :
+  In (a, r', used') (enum_pats true g ps r []) -> NoDup (pats_rels a).
+Proof.
+  intros H. apply enum_pats_spec in H.
+  destruct (pats_match_used _ _ _ _ _ _ _ H (NoDup_nil _)) as [H1 H2].
+  rewrite app_nil_r in H2. eapply Permutation_NoDup; eassumption.
 Qed.
